@@ -84,6 +84,16 @@ CHECKS = {
     note="Trusts TLC/SANY, Go toolchain, strace (ptrace permitted in the sandbox), and that a returned write(2) survives process death (not power loss: the property speaks about process crash/exit).",
     technique="TLA+ spec (CrashPath) model-checked with TLC; crash placements replayed on a child process; strace system-call traces validated by TLC (Trace_Crash)",
     design="4/C20", engine="crash"),
+ "C07": dict(
+    text="Encoder.tla models the Encoder protocol as a grammar of well-nested call streams and both implementations as token machines written one action per method (JSON: comma iff the previous token was a value or a closing bracket; text: key=value at depth 0, an embedded JSON machine that is reset when the depth returns to 0). TLC enumerates every stream of <= 7 calls / depth 3 (quick) or 8 / 4 (thorough) and checks WellFormedJSON with an independent RFC 8259 recogniser and TextIsRewrittenJSON (the text line is the JSON line's top-level members rewritten key=value, string-like scalars unquoted). Each stream is built 3 (quick) / 10 (thorough) times through the public constructors (typed, pointer, Any, Reflect, typed slices, Object, a custom ArrayValue that replays nested calls) with boundary and seeded values and formatted by the real layouts: the JSON line must be exactly one line, pass encoding/json, decode (ordered scan) to the logged data - member order, exact integers over the int64/uint64 range, bit-exact floats, strings with one U+FFFD per invalid byte, null for nil pointers, json.Marshal text for reflected values, a JSON string for non-finite and unmarshallable values - and show the specification's token structure; map-sourced fields must come out sorted by key.",
+    note="Trusts TLC/SANY, Go toolchain, encoding/json and strconv as reference. Structure is exhaustive within the bound; value fidelity (exact integers, bit-exact floats, byte-exact strings) is sampled over boundary pools plus seeded random values.",
+    technique="TLA+ spec (Encoder token machines) model-checked with TLC; every enumerated call stream replayed through the real constructors and layouts with an independent JSON decoder as oracle",
+    design="4/C07-C08", engine="encoder"),
+ "C08": dict(
+    text="Encoder.tla models the Encoder protocol as a grammar of well-nested call streams and both implementations as token machines written one action per method (JSON: comma iff the previous token was a value or a closing bracket; text: key=value at depth 0, an embedded JSON machine that is reset when the depth returns to 0). TLC enumerates every stream of <= 7 calls / depth 3 (quick) or 8 / 4 (thorough) and checks WellFormedJSON with an independent RFC 8259 recogniser and TextIsRewrittenJSON (the text line is the JSON line's top-level members rewritten key=value, string-like scalars unquoted). Each stream is built 3 (quick) / 10 (thorough) times through the public constructors (typed, pointer, Any, Reflect, typed slices, Object, a custom ArrayValue that replays nested calls) with boundary and seeded values and formatted by the real layouts: the text line must equal, byte for byte, the line rebuilt from the real JSON line of the same event (header [LEVEL][time][file:line] tag||, context string, then key=value for context and call fields with exactly the string-like values unquoted) and contain no raw control byte; FileLine.tla states the truncation law for every width and TLC enumerates (length 0..12, width -5..14), replayed together with a sweep of widths -5..200 on GetFileLine.",
+    note="Trusts TLC/SANY, Go toolchain; the text oracle is differential against the JSON line validated under C07 (as the property is stated). The context string is written verbatim by the layout; it is generated without control characters.",
+    technique="TLA+ spec (Encoder text machine + FileLine law) model-checked with TLC; text output compared with the line rebuilt from the real JSON tokens",
+    design="4/C07-C08", engine="encoder"),
 }
 
 NOT_YET = {}
